@@ -41,6 +41,7 @@ func main() {
 	first := fixedScenarios(f)
 	first = append(first, schedScenarios(f)...)
 	first = append(first, raceScenarios(f)...)
+	first = append(first, pipeScenarios(f)...)
 	outs := runAll(f, first, f.N(4, 8))
 	points := map[string]int{}
 	for i, o := range outs {
@@ -84,6 +85,7 @@ type agg struct {
 func newAgg(res *lib.Result) *agg {
 	a := &agg{res: res, mons: map[string]*lib.Monitor{}, ties: map[string]*lib.Tie{}}
 	a.ties[tieSched] = res.Tie(tieSched, "K4", tieSchedRule)
+	a.ties[tiePipe] = res.Tie(tiePipe, "K4", tiePipeRule)
 	a.mons[monShutdown] = res.Monitor(monShutdown,
 		"real pkg/resource + minibus under scenarios (0-8 subscribers, backpressure on/off, updates-only, PullID; consumers drain / stop after k / never receive; cancel before subscribe, at the n-th occurrence of every yield point, at random instants, at the end; 0-3 writers): after the cancel the consumer sees close within the bound; writers return once every non-receiving subscriber is cancelled; a write issued after a subscription ended returns; PullID closes after its item is removed; the goroutine census (runtime.Stack filtered to pkg/resource + internal/minibus frames) returns to empty; no panic (recovered or process-killing). non-trivial = at least one subscriber; distinct = distinct check x subscription class x consumer/cancel mode")
 	a.mons[monDelivery] = res.Monitor(monDelivery,
@@ -116,6 +118,9 @@ func (a *agg) add(sc Scenario, o Outcome) {
 		if strings.HasPrefix(k, "tie:") {
 			dst = a.ties[tieSched].Distribution
 			k = strings.TrimPrefix(k, "tie:")
+		} else if strings.HasPrefix(k, "pipe:") {
+			dst = a.ties[tiePipe].Distribution
+			k = strings.TrimPrefix(k, "pipe:")
 		}
 		dst[k] += n
 	}
@@ -130,7 +135,7 @@ func worker(f lib.Flags) {
 	out := bufio.NewWriter(os.Stdout)
 	defer out.Flush()
 	var drv *lib.Driver
-	tieBroken := 0
+	tieBroken, pipeBroken := 0, 0
 	defer func() {
 		if drv != nil {
 			drv.Close()
@@ -151,6 +156,24 @@ func worker(f lib.Flags) {
 			out.Flush()
 			var o Outcome
 			switch req.Sc.Mode {
+			case "pipe":
+				if drv == nil {
+					d, derr := lib.StartDriver(f.Driver)
+					if derr != nil {
+						o.Ties = append(o.Ties, TieRec{Tie: tiePipe, Err: "driver: " + derr.Error()})
+					}
+					drv = d
+				}
+				if drv != nil && pipeBroken < 3 {
+					o = runPipe(req.Sc, drv)
+					for _, t := range o.Ties {
+						if t.Err != "" || t.Model != t.Code {
+							pipeBroken++
+						}
+					}
+				} else if drv != nil {
+					o.count("pipe:skipped-after-3-disagreements")
+				}
 			case "sched":
 				if drv == nil {
 					d, derr := lib.StartDriver(f.Driver)
@@ -315,7 +338,7 @@ func replay(f lib.Flags) int {
 	}
 	b, _ := json.Marshal(rp.Input)
 	var sc Scenario
-	if rp.Input == nil || json.Unmarshal(b, &sc) != nil || sc.Res == "" && sc.Sched == nil && sc.Race == nil {
+	if rp.Input == nil || json.Unmarshal(b, &sc) != nil || sc.Res == "" && sc.Sched == nil && sc.Race == nil && sc.Pipe == nil {
 		fmt.Println("replay: no concrete input in file (", rp.Kind, rp.Broken, ")")
 		return 2
 	}
